@@ -191,7 +191,19 @@ def run(rep):
             rep.lost("T-CONTAINER", "T-CONTAINER/" + nm, "impl " + nm)
             continue
         s = show(f.body)
-        rep.check(s == want, "T-CONTAINER", "T-CONTAINER/" + nm, f.sp, "container access passes elements/keys through unchanged", s)
+        okc = s == want
+        if not okc and nm.startswith("yaml::"):
+            # self.get(Value::String(<owned copy of key>)).map(..), the key built in place or in a let
+            t = unblock(f.body)
+            while t.get("k") == "Block" and t.get("expr") is not None:
+                t = unblock(t["expr"])
+            g = peel(t["args"][0]) if call_is(t, "::map") and len(t["args"]) == 2 and peel(t["args"][1]).get("k") == "Closure" else {}
+            if call_is(g, "Mapping::get") and len(g["args"]) == 2 and q.var_id(g["args"][0]) == strip_ref(f.thir["params"][0]["pat"]).get("id"):
+                k_ = q.resolve(f.body, g["args"][1])
+                inner = peel(k_["fields"][0]["e"]) if k_.get("k") == "Adt" and k_.get("variant") == "String" and k_.get("fields") else {}
+                okc = inner.get("k") == "Call" and (inner.get("fn") or "").endswith(("ToString::to_string", "ToOwned::to_owned", "String::from", "From::from", "Into::into")) and \
+                    q.var_id(inner["args"][0]) == strip_ref(f.thir["params"][1]["pat"]).get("id")
+        rep.check(okc, "T-CONTAINER", "T-CONTAINER/" + nm, f.sp, "container access passes elements/keys through unchanged", s)
         c = F.fn(nm + "::{closure#0}")
         rep.check(bool(c) and show(c.body) == "AsValue::as_value(v)", "T-CONTAINER", "T-CONTAINER/" + nm + "/element", c.sp if c else f.sp, "each element/value is converted with its own as_value", show(c.body) if c else "-")
     # ---- delegate (shared with C10)
